@@ -144,6 +144,45 @@ func (ev *enumEval) eval(fr *frame, v ssa.Value) (any, bool) {
 			return !v.(bool), true
 		}
 		if x.Op == token.MUL {
+			// element of a package-level array table
+			if ia, ok := x.X.(*ssa.IndexAddr); ok {
+				if g, ok := ia.X.(*ssa.Global); ok && g.Pkg != nil {
+					tb := ev.c.readTable(g.Pkg.Pkg.Path(), g.Name())
+					if tb.Err == "" && tb.Array {
+						iv, ok := ev.eval(fr, ia.Index)
+						if !ok {
+							return nil, false
+						}
+						n, isInt := iv.(int64)
+						if !isInt {
+							ev.undecided("non-integer array index")
+							return nil, false
+						}
+						at, _ := g.Type().Underlying().(*types.Pointer).Elem().Underlying().(*types.Array)
+						if at == nil || n < 0 || n >= at.Len() {
+							ev.undecided("array table %s indexed out of range (%d): the code would panic", g.Name(), n)
+							return nil, false
+						}
+						for _, e := range tb.Entries {
+							if kn, ok := constIntVal(e.Key); ok && kn == n {
+								return ev.eval(fr, e.Val)
+							}
+						}
+						// absent entry: the zero value of the element type
+						switch et := at.Elem().Underlying().(type) {
+						case *types.Basic:
+							if et.Info()&types.IsBoolean != 0 {
+								return false, true
+							}
+							if et.Info()&types.IsInteger != 0 {
+								return int64(0), true
+							}
+						}
+						ev.undecided("zero value of array element type %s", typeStr(at.Elem()))
+						return nil, false
+					}
+				}
+			}
 			// a leaf: load of an enum-typed field
 			k := ev.leafKey(fr, x)
 			if val, ok := ev.asg[k]; ok {
